@@ -193,6 +193,58 @@ def run_history(ctx, items, hist, S, label):
     return calls, line, rep if hist else {}
 
 
+EDITED_SPEC_SRC = """
+@tweezer
+def look(n: int):
+    z = spec.get_static_trap(zone_id="mem")
+    action.set_loc(z)
+    action.turn_on(action.ALL, action.ALL)
+    action.move(grid.shift(z, 1.0 * n, 0.0))
+    action.turn_off(action.ALL, action.ALL)
+
+@tweezer
+def plain(n: int):
+    z = grid.from_positions([0.0, 2.0], [1.0])
+    action.set_loc(z)
+    action.turn_on(action.ALL, action.ALL)
+    action.move(grid.shift(z, 0.0, 1.0 * n))
+"""
+
+
+def spec_edited_between_calls(ctx):
+    """one tracer instance over a spec whose layout is EMPTY at the first calls (every look-up fails, possibly before the kernel body starts)
+    and is extended IN PLACE by its holder before the later calls: each call gives what a fresh instance over the same spec object gives then"""
+    from bloqade.geometry.dialects.grid import Grid
+    from bloqade.shuttle.arch import ArchSpec, Layout
+    try:
+        ns = kernels.define(EDITED_SPEC_SRC)
+    except Exception as e:
+        ctx.obligation("the kernels of the edited-spec history compile", False, f"{type(e).__name__}: {e}"[:300])
+        return
+    E = ArchSpec(layout=Layout(static_traps={}, fillable=set(), has_cz=set(), has_local=set()))
+    ti = tc.new_tracer(E)
+    edits = {2: ("mem", Grid.from_positions([0.0, 3.0, 6.0], [0.0, 4.0])), 5: ("mem2", Grid.from_positions([50.0], [0.0, 1.0]))}
+    steps = [("look", (1,)), ("plain", (2,)), ("look", (2,)), ("plain", (1,)), ("look", (1,)), ("look", (3,)), ("plain", (2,))]
+    done = []
+    for i, (k, args) in enumerate(steps):
+        if i in edits:
+            E.layout.static_traps[edits[i][0]] = edits[i][1]
+            done.append(f"layout.static_traps[{edits[i][0]!r}] added in place")
+        done.append(f"{k}{args}")
+        ctx.evaluations += 1
+        st, r = tc.run_impl(ns[k], args, tracer=ti)
+        fst, fr = tc.run_impl(ns[k], args, arch_spec=E)
+        got = tc.path_text(tc.abstract_path(r), tc.PosTable()) if st == "ok" else "ERR " + str(r).split(":")[0]
+        want = tc.path_text(tc.abstract_path(fr), tc.PosTable()) if fst == "ok" else "ERR " + str(fr).split(":")[0]
+        if got != want:
+            ctx.fail({"kind": "differs-from-fresh-instance", "call": k, "scenario": "spec edited in place between calls", "step": i},
+                     {"edited_spec_src": EDITED_SPEC_SRC, "history": list(done)},
+                     f"history {done}: the reused instance gives {got[:140]} where a fresh instance over the same spec gives {want[:140]}")
+            return
+        ctx.nt(("edited-spec", i, st))
+    ctx.count("history over a spec extended in place between the calls of one instance: steps", len(steps))
+
+
 def source_frame(ctx):
     """taskgen.py read with ast (harness/gen/tracer_frame.py): what a trace writes on the interpreter, what initialize rebinds, what run_trace
     returns - the state Model/TracerHeap.v carries from one call to the next must be all there is"""
@@ -218,6 +270,7 @@ def run(ctx):
                 "(2 succeeding, fail-before-set_loc, shape-mismatch-after-moves, failing assert) and random sequences up to length 12 over "
                 "generated kernels; each result snapshotted at return and re-read after every later call, compared with a fresh instance, "
                 "object identities of waypoint cells compared across results; non-trivial = distinct histories mixing failing and succeeding calls")
+    spec_edited_between_calls(ctx)
     fixed = [Item(n, f"@tweezer\ndef main{sig}:{body}", args, S) for n, sig, body, args in FIXED]
     for it in fixed:
         ctx.hist("fixed_item_outcome", f"{it.name}: {'path' if it.fresh is not None else 'raises'}")
@@ -418,7 +471,13 @@ def replay(data):
         def fail(s, sig, rep, what): s.fails.append(what)
         def hist(s, *a): pass
         def nt(s, *a): pass
+        def count(s, *a): pass
+        def obligation(s, n, ok, log=""):
+            if not ok: s.fails.append(n + ": " + log)
     c = C()
+    if "edited_spec_src" in inp:
+        spec_edited_between_calls(c)
+        return bool(c.fails), "; ".join(c.fails[:3]) or "history over an edited spec behaves like fresh instances"
     from kirin.dialects import ilist
     names = inp["history"]
     uniq = sorted(set(names))
